@@ -42,6 +42,8 @@ var suites = map[string]func(o corrOpts) *res.Summary{
 	"excerpt": func(o corrOpts) *res.Summary { return corrExcerpt(o.tier, o.seed, o.replay) },
 	"cfg":     corrCfg,
 	"gram":    corrGram,
+	"progdir": corrProgDir,
+	"prog":    corrProg,
 }
 
 func runCorr(args []string) int {
